@@ -2,10 +2,13 @@
 // programs built with Minify must print what spec/MiniGo.tla predicts (the same
 // prediction the unminified builds are held to), in the plain and in the
 // resumable form.  The scanner and the name allocator are additionally driven
-// directly through the verif exports (see scanner.go).
+// directly through the verif exports against spec/Minify.tla (scanner.go,
+// tokenize.go, allocator.go).
 package c16
 
 import (
+	"os"
+
 	"verif/core"
 	"verif/gjs"
 	"verif/props/minigo"
@@ -16,6 +19,12 @@ func init() { reg.Register("C16", "model_checking", Run) }
 
 // Run is the C16 check.
 func Run(c *core.Ctx, pool *gjs.Pool) {
-	minigo.Check(c, pool, minigo.Config{Prop: "C16", Families: true, Random: c.Pick(250, 5000), NodeCheck: true,
-		Modes: []minigo.Mode{{Name: "minified-plain", Minify: true}, {Name: "minified-resumable", Flat: true, Minify: true, Masks: c.Pick(2, 8)}}})
+	if rd := os.Getenv("VERIF_REPLAY"); rd != "" && replayDirect(c, rd) {
+		return
+	}
+	if os.Getenv("VERIF_C16_DIRECT_ONLY") == "" { // development aid: skip the end-to-end half
+		minigo.Check(c, pool, minigo.Config{Prop: "C16", Families: true, Random: c.Pick(250, 5000), NodeCheck: true,
+			Modes: []minigo.Mode{{Name: "minified-plain", Minify: true}, {Name: "minified-resumable", Flat: true, Minify: true, Masks: c.Pick(2, 8)}}})
+	}
+	runDirect(c)
 }
